@@ -360,6 +360,11 @@ def r12_3(prog: Program, rep: Report):
                 textual = (T.is_call_to(r, "builtins.str", "builtins.repr", "builtins.format") and r[2][:1] == (x,)) or (r[0] == "fstr" and T.contains(r, lambda s: s == x)) or (r[0] == "call" and r[1][0] == "attr" and r[1][1] == x and r[1][2] in ("__str__", "__repr__", "__format__"))
                 if textual:
                     reasons.append(f"returns the text of {up} (values that compare equal can print differently: Decimal('1.10') == Decimal('1.1'), 0.0 == -0.0)")
+            RENDER = ("isoformat", "utcoffset", "tzname", "__str__", "__repr__", "strftime", "ctime", "__format__", "as_posix", "hex")
+            for cp in set(coarse_params) | set(unannotated):
+                x = ("param", cp)
+                if T.contains(r, lambda s: s[0] == "call" and s[1][0] == "attr" and s[1][2] in RENDER and (s[1][1] == x or x in s[2])):
+                    reasons.append(f"renders {cp} through .{[s[1][2] for s in T.walk(r) if s[0] == 'call' and s[1][0] == 'attr' and s[1][2] in RENDER][0]}() (values that compare equal can render differently: the same instant at two offsets)")
             for cp in coarse_params:
                 x = ("param", cp)
                 if T.contains(r, lambda s: s[0] == "call" and s[1][0] == "attr" and s[1][1] == x and s[1][2] in ("isoformat", "utcoffset", "tzname", "__str__", "__repr__", "strftime")) or T.contains(r, lambda s: T.is_call_to(s, "builtins.str", "builtins.repr") and s[2] == (x,)) or T.contains(r, lambda s: s == ("attr", x, "tzinfo")):
